@@ -105,7 +105,7 @@ fcp_parser = Lark(
     string: ESCAPED_STRING
     number: SIGNED_NUMBER
     value : array | identifier | number | string
-    array: "[" value ("," value)* "]"
+    array: "[" (value ("," value)*)? "]"
 
     _AS: /as(?![A-Za-z0-9_])/
     STR_TYPE: /str(?![A-Za-z0-9_])/
